@@ -29,7 +29,8 @@ impl Sandbox {
         let scratch = Scratch::new();
         // awkward on purpose: blanks and non-ASCII letters in every path scrut gets to see
         let docs = scratch.sub("do cs \u{fc}");
-        let tmpdir = scratch.sub("tmp dir \u{e9}");
+        // blanks, a non-ASCII letter, and characters that are special inside a double-quoted shell word or in scrut's script template
+        let tmpdir = scratch.sub("tmp dir \u{e9} $x `y` \"q {name}");
         let home = scratch.sub("ho me");
         Self { scratch, docs, tmpdir, home }
     }
